@@ -31,6 +31,7 @@ theorem apply_config (t : T) (op : Op) :
   | release n => simp [apply, release, (touch_level _ n)]
   | reset => simp [apply, reset]
   | fire n => simp only [apply, fire]; split <;> simp [reset]
+  | staleFire => simp [apply, reset]
 
 /-- after a `Signal`/`Release` at time `n` on a throttler that has an idle timer, the
 timer is armed for exactly `n + idleTimeout` -/
